@@ -43,6 +43,11 @@ class Unsupported(Exception):
     pass
 
 
+# single-precision spellings are identified with the double ones (floating-point width is outside the normal form)
+ALIASES = {'sqrtf': 'sqrt', 'atan2f': 'atan2', 'sinf': 'sin', 'cosf': 'cos', 'fabsf': 'fabs', 'acosf': 'acos', 'asinf': 'asin',
+           'atanf': 'atan', 'floorf': 'floor', 'ceilf': 'ceil', 'fmodf': 'fmod', 'powf': 'pow', 'tanf': 'tan'}
+
+
 # compare modulo the boundary of comparisons: p < 0 and p <= 0 are identified (used by rules that state so)
 LOOSE = [False]
 
@@ -444,6 +449,11 @@ def ite(c, a, b):
         return a
     if c is False:
         return b
+    # canonical polarity of the selector
+    if isinstance(c, tuple) and c and c[0] == 'not':
+        c, a, b = c[1], b, a
+    if LOOSE[0] and isinstance(c, tuple) and c and c[0] == 'le0' and from_key(c[1]).lead_negative():
+        c, a, b = ('le0', (-from_key(c[1])).key()), b, a           # !(p <= 0) ~ (-p <= 0) modulo the boundary
     if isinstance(a, Poly) and isinstance(b, Poly):
         if a == b:
             return a
@@ -451,10 +461,6 @@ def ite(c, a, b):
         common = Poly({m: v for m, v in a.t.items() if b.t.get(m) == v})
         if common.t:
             a, b = a - common, b - common
-        if isinstance(c, tuple) and c and c[0] == 'not':
-            c, a, b = c[1], b, a
-        if LOOSE[0] and isinstance(c, tuple) and c and c[0] == 'le0' and from_key(c[1]).lead_negative():
-            c, a, b = ('le0', (-from_key(c[1])).key()), b, a           # !(p <= 0) ~ (-p <= 0) modulo the boundary
         if a.is_const() and a == -b and a.cval() < 0:
             return common - Poly.atom(('ite', c, (-a).key(), (-b).key()))
         if a.t and a == -b and not (a.is_const() and abs(a.cval()) == 1):
@@ -527,6 +533,7 @@ class Machine:
         self.bvn = 0
         self.trace = []
         self.ints = set()                 # atoms read through an integer-typed lvalue
+        self.allow_break = False          # a `break` ends the block being rewritten (case bodies of a switch)
         self.split = False                # False | 'writes' (split where a branch wrote memory or returned) | 'all'
 
     def integral(self, p):
@@ -649,7 +656,7 @@ class Machine:
         if k == 'ReturnStmt':
             if not n['ch']:
                 return ('void',)
-            return self.ev(fn, n['ch'][0], st)
+            return self.loadv(self.ev(fn, n['ch'][0], st), st)
         if k == 'IfStmt':
             c = self.cond(fn, n['cond'], st)
             if c is True:
@@ -691,6 +698,8 @@ class Machine:
             return ('split', _leaves(r1, s1) + _leaves(r2, s2))
         if k == 'ForStmt':
             return self.loop(fn, n, st, rest)
+        if k == 'BreakStmt' and self.allow_break:
+            return ('break',)
         if k in ('WhileStmt', 'DoStmt', 'SwitchStmt', 'CXXForRangeStmt', 'CXXTryStmt', 'BreakStmt', 'ContinueStmt', 'GotoStmt'):
             raise Unsupported('%s at %s' % (k, fn.where(n)))
         # expression statement
@@ -994,7 +1003,7 @@ class Machine:
         if k == 'InitListExpr' or k == 'CXXConstructExpr' or k == 'CXXTemporaryObjectExpr':
             return ('init', n.get('callee') or k) + tuple(self.keyof(self.loadv(self.ev(fn, c, st), st)) for c in n['ch'])
         if k == 'CXXDefaultArgExpr':
-            raise Unsupported('default argument at ' + fn.where(n))
+            return ('defarg',)
         if k == 'StringLiteral':
             return ('str', n.get('v'))
         raise Unsupported('%s at %s' % (k, fn.where(n)))
@@ -1204,6 +1213,9 @@ class Machine:
     def call(self, fn, n, st):
         callee = n.get('callee') or ''
         short = callee.split('::')[-1]
+        if short in ALIASES and (callee == short or callee.startswith('std::')):
+            short = ALIASES[short]
+            callee = short
         ch = list(n['ch'])
         recv = None
         if n['k'] == 'CXXMemberCallExpr':
@@ -1214,6 +1226,13 @@ class Machine:
                 i = self.num(self.loadv(self.ev(fn, ch[0], st), st))
                 return idx(fld(recv, 'components'), i)
             return recv
+        if n['k'] == 'CXXOperatorCallExpr' and n.get('oop') == '=' and len(ch) == 2:
+            lv = self.ev(fn, ch[0], st)
+            v = self.loadv(self.ev(fn, ch[1], st), st)
+            if isinstance(lv, tuple) and lv and lv[0] == 'L':
+                self.store(lv, v, st)
+                return lv
+            raise Unsupported('object assignment to %r at %s' % (lv, fn.where(n)))
         if n['k'] == 'CXXOperatorCallExpr' and n.get('oop') in ('->', '*') and len(ch) == 1:
             return self.obj(self.ev(fn, ch[0], st), st)                 # smart pointers are transparent
         if n['k'] == 'CXXMemberCallExpr' and short == 'get' and not ch and ('shared_ptr' in callee or 'unique_ptr' in callee):
@@ -1324,6 +1343,50 @@ def split_ret(r):
             return b_not(r[1]), r[3]
         return r[1], None
     return True, r
+
+
+def evaluate(v, val):
+    """value of a normal form under a valuation of its atoms: val(atom) -> number / bool, or None when unknown.
+    ite / comparison / and / or / not are interpreted; used for finite-domain checks over orderings."""
+    if isinstance(v, Poly):
+        s = Fraction(0)
+        for m, c in v.t.items():
+            x = Fraction(c)
+            for a, e in m:
+                av = _eval_atom(a, val)
+                if av is None:
+                    raise Unsupported('no value for %s' % show_atom(a))
+                x *= Fraction(av) ** e
+            s += x
+        return s
+    if v is True or v is False:
+        return v
+    if isinstance(v, tuple) and v:
+        if v[0] in ('lt0', 'le0', 'eq0', 'ne0'):
+            x = evaluate(from_key(v[1]), val)
+            return {'lt0': x < 0, 'le0': x <= 0, 'eq0': x == 0, 'ne0': x != 0}[v[0]]
+        if v[0] == 'and':
+            return all(evaluate(x, val) for x in v[1:])
+        if v[0] == 'or':
+            return any(evaluate(x, val) for x in v[1:])
+        if v[0] == 'not':
+            return not evaluate(v[1], val)
+        if v[0] == 'ite':
+            return evaluate(v[2] if evaluate(v[1], val) else v[3], val)
+        r = val(v)
+        if r is None:
+            raise Unsupported('no value for %s' % show_atom(v))
+        return r
+    raise Unsupported('cannot evaluate %r' % (v,))
+
+
+def _eval_atom(a, val):
+    if isinstance(a, tuple) and a and a[0] == 'ite':
+        c = evaluate(a[1], val)
+        return evaluate(from_key(a[2] if c else a[3]), val)
+    if a in CONSTS:
+        return Fraction(CONSTS[a])
+    return val(a)
 
 
 def resolver(F, deny=(), allow_virtual=()):
